@@ -106,13 +106,32 @@ impl FraudProof for BadEncodingFraudProof {
                 proof_axis,
             } = share_with_proof;
 
+            // the tree the proof is checked against and the position of the share in that tree
             // unwraps are safe because we validated that index is in range
-            let root = match (self.axis, proof_axis) {
-                (AxisType::Row, AxisType::Row) => header.dah.row_root(self.index).unwrap(),
-                (AxisType::Row, AxisType::Col) => header.dah.column_root(share_idx as u16).unwrap(),
-                (AxisType::Col, AxisType::Row) => header.dah.row_root(share_idx as u16).unwrap(),
-                (AxisType::Col, AxisType::Col) => header.dah.column_root(self.index).unwrap(),
+            let axis_idx = usize::from(self.index);
+            let (root, leaf_idx) = match (self.axis, proof_axis) {
+                (AxisType::Row, AxisType::Row) => {
+                    (header.dah.row_root(self.index).unwrap(), share_idx)
+                }
+                (AxisType::Row, AxisType::Col) => {
+                    (header.dah.column_root(share_idx as u16).unwrap(), axis_idx)
+                }
+                (AxisType::Col, AxisType::Row) => {
+                    (header.dah.row_root(share_idx as u16).unwrap(), axis_idx)
+                }
+                (AxisType::Col, AxisType::Col) => {
+                    (header.dah.column_root(self.index).unwrap(), share_idx)
+                }
             };
+
+            // the proof has to be for the leaf at the share's own position: a valid proof
+            // of any other leaf of that tree says nothing about this position of the axis
+            if proof.start_idx() as usize != leaf_idx {
+                bail_validation!(
+                    "share {share_idx} proof is for leaf ({}) != share position in the tree ({leaf_idx})",
+                    proof.start_idx(),
+                );
+            }
 
             proof
                 .verify_range(&root, &[&share], **namespace)
